@@ -9,7 +9,7 @@
    5. C04: the tamper theorems of Model/TamperFacts.v transferred to the validating reader. *)
 From Coq Require Import String List NArith ZArith Bool Lia.
 From ACH Require Import Arith TamperFacts ArithFacts.
-From ACH Require Import ReaderValid ReaderValidFacts LayoutFacts FramingFacts DispatchFacts DispatchBytes.
+From ACH Require Import ReaderValid ReaderValidFacts ReaderValidCanon LayoutFacts LayoutRoundtrip FramingFacts DispatchFacts DispatchBytes.
 From ACH Require C04Obl.
 From ACH Require Import Layouts RecRules Tables ReaderValidSites C01Obl C01FileEx C01FileObl.
 Import ListNotations.
@@ -119,6 +119,73 @@ Proof.
   - split; [discriminate|]. intros [H _]. discriminate H.
 Qed.
 
+(* ---- canonical values: for 24 of the 26 record types [rec_keepsb] follows from [canonb] ---- *)
+
+(* the record types all of whose recognised rules read only fields that String() writes with a simple
+   segment and Parse reads back from its own columns *)
+Definition canon_layouts : list layout := filter (fun L => rules_simple L (rules_for RT (l_name L))) LT.
+Definition other_layouts : list layout := filter (fun L => negb (rules_simple L (rules_for RT (l_name L)))) LT.
+
+Lemma canon_layouts_names :
+  map l_name canon_layouts =
+  [ "ADVBatchControl"; "ADVEntryDetail"; "ADVFileControl"; "Addenda02"; "Addenda05"; "Addenda10"; "Addenda11"; "Addenda12"
+  ; "Addenda13"; "Addenda14"; "Addenda15"; "Addenda16"; "Addenda17"; "Addenda18"; "Addenda98"; "Addenda98Refused"
+  ; "Addenda99Contested"; "Addenda99Dishonored"; "BatchControl"; "BatchHeader"; "EntryDetail"; "FileControl"
+  ; "IATBatchHeader"; "IATEntryDetail" ].
+Proof. vm_compute. reflexivity. Qed.
+
+(* the rules of the two others that read something else: a hand-modelled accessor (Addenda99), fields
+   Parse assigns as constants or through trimRoutingNumberLeadingZero / validateSimpleDate (FileHeader) *)
+Lemma other_layouts_rules :
+  map (fun L => (l_name L, map fst (filter (fun lc => negb (cond_simple L (snd lc))) (rules_for RT (l_name L))))) other_layouts =
+  [ ("Addenda99", ["Addenda99.Validate#3"])
+  ; ("FileHeader", [ "FileHeader.fieldInclusion#1"; "FileHeader.fieldInclusion#2"; "FileHeader.fieldInclusion#3"
+                   ; "FileHeader.fieldInclusion#5"; "FileHeader.fieldInclusion#6"; "FileHeader.fieldInclusion#7"
+                   ; "FileHeader.ValidateWith#10"; "FileHeader.ValidateWith#11"; "FileHeader.ValidateWith#12"
+                   ; "FileHeader.ValidateWith#14"; "CheckRoutingNumber#15"; "CheckRoutingNumber#16" ]) ].
+Proof. vm_compute. reflexivity. Qed.
+
+Lemma canon_in L : In L canon_layouts -> In L LT /\ rules_simple L (rules_for RT (l_name L)) = true.
+Proof. unfold canon_layouts. intros H. now apply filter_In in H. Qed.
+
+Lemma layout_of_name x L : layout_of LT (r_kind x) = Some L -> l_name L = r_kind x.
+Proof. unfold layout_of. intros H. apply find_some in H as [_ H]. now apply String.eqb_eq in H. Qed.
+
+(* a record of one of the 24 types whose values are canonical for their columns keeps every value the
+   rules read; with C01_valid_parsed: it validates when read back *)
+Theorem c01_canon_keeps x L :
+  layout_of LT (r_kind x) = Some L -> In L canon_layouts ->
+  fitsb L (r_val x) = true -> canonb L (r_val x) = true -> rec_keepsb LT RT x = true.
+Proof.
+  intros HL Hin Hfit Hcan. apply canon_in in Hin as [_ Hs]. rewrite (layout_of_name x L HL) in Hs.
+  exact (canon_keeps LT RT x L all_layouts_ok HL Hs Hfit Hcan).
+Qed.
+
+Theorem c01_canon_valid_parsed x L :
+  layout_of LT (r_kind x) = Some L -> In L canon_layouts ->
+  fitsb L (r_val x) = true -> canonb L (r_val x) = true ->
+  rec_passb RT x = true -> rec_passb RT (parsed_rec LT x) = true.
+Proof. intros HL Hin Hfit Hcan Hv. apply c01_valid_parsed; [exact Hv|now apply (c01_canon_keeps x L)]. Qed.
+
+(* non-vacuity: the batch header of the IAT example as it is read back is canonical; and [canonb] is strictly stronger than
+   [rec_keepsb] (the padded IndividualName of [padded_name_kept] below is not canonical) *)
+Lemma iat_hdr_canon_layout : In L_IATBatchHeader canon_layouts.
+Proof.
+  unfold canon_layouts. apply filter_In. split; [|vm_compute; reflexivity].
+  unfold LT, all_layouts. repeat (first [left; reflexivity | right]).
+Qed.
+
+Example canon_example :
+  let x := parsed_rec LT (bt_hdr (hd (mkBat a02 [] a02) (fl_iat ex_iat))) in
+  layout_of LT (r_kind x) = Some L_IATBatchHeader
+  /\ fitsb L_IATBatchHeader (r_val x) = true /\ canonb L_IATBatchHeader (r_val x) = true /\ rec_passb RT x = true
+  /\ rec_keepsb LT RT x = true.
+Proof.
+  cbv zeta. split; [vm_compute; reflexivity|]. split; [vm_compute; reflexivity|]. split; [vm_compute; reflexivity|].
+  split; [vm_compute; reflexivity|].
+  apply (c01_canon_keeps _ L_IATBatchHeader); [vm_compute; reflexivity|exact iat_hdr_canon_layout| |]; vm_compute; reflexivity.
+Qed.
+
 (* ------------------------------------------------------------------ *)
 (* 3. non-vacuity                                                       *)
 
@@ -186,6 +253,21 @@ Lemma blank_city_refuted :
   /\ rec_keepsb LT RT a02_blank_city = false /\ rec_passb RT (parsed_rec LT a02_blank_city) = false
   /\ rec_passb RT a02 = true /\ rec_keepsb LT RT a02 = true /\ rec_passb RT (parsed_rec LT a02) = true.
 Proof. vm_compute. repeat split; reflexivity. Qed.
+
+(* FileHeader (not among the 24): FileHeader.Validate() only wants FileCreationDate non-empty; six
+   characters that are not a calendar date ("250230") are written as they are and blanked by Parse
+   (validateSimpleDate): the header read back has no creation date and is rejected (replayed on the Go
+   code: known finding roundtrip:valid:file-creation-date-not-calendar:read-error) *)
+Definition set_hdr (g : string) (v : value) (f : fileR) : fileR :=
+  mkFil (mkRec (r_kind (fl_hdr f)) ((g, v) :: r_val (fl_hdr f))) (fl_batches f) (fl_iat f) (fl_ctl f).
+Lemma file_creation_date_refuted :
+  let f := set_hdr "FileCreationDate" (VS (bstr "250230")) ex_std in
+  all_file (rec_fitsb LT) f = true /\ all_file (rec_stableb LT) f = false /\ dispatchb LT f = true
+  /\ all_file (rec_passb RT) f = true /\ batches_okb AT (parsed_file LT f) = true
+  /\ rec_keepsb LT RT (fl_hdr f) = false /\ rec_passb RT (parsed_rec LT (fl_hdr f)) = false
+  /\ read_file LT (write_file_padded LT f) = Some (parsed_file LT f)
+  /\ read_file_valid LT RT AT (write_file_padded LT f) = None.
+Proof. cbv zeta. vm_compute. repeat split; reflexivity. Qed.
 
 (* [rec_keepsb] is not "the value is unchanged": an IndividualName shorter than its 22 columns is read
    back padded (Parse keeps the columns as they are), the emptiness test of fieldInclusion is all
